@@ -5,6 +5,7 @@ CONSTANTS
   FetchMax = 2
   WideEvery = 0
   OffsetReset = "all"
+  LateResp = "drop"
   HWFallback = TRUE
   ElectAlive = TRUE
   AllowLag = FALSE
